@@ -24,7 +24,7 @@ from pyvc.symex import Executor
 from pyvc.values import NONE, V, VBool, VExt, VFunc, VInt, VReal, VRef, VSeq, VStr, VTuple, VType, VUnk, ext_sort, fresh_name
 from pyvc.verify import Maker, p_bool, p_ext, p_int, p_obj, p_str, p_unk
 from contracts import etree_model as ET
-from contracts.symlist import SymListMixin, is_max, seq_eq, take, vite, seq_of_items
+from contracts.symlist import SymListMixin, is_max, seq_eq, take, vite, seq_of_items, OVER
 
 DT = "sharepoint2text/parsing/extractors/data_types.py"
 PPTX = "sharepoint2text/parsing/extractors/ms_modern/pptx_extractor.py"
@@ -100,6 +100,19 @@ class C13Executor(SymListMixin, ET.ETreeMixin, Executor):
         return out
 
     def construct(self, st, t, args, kwargs, node):
+        if t.name == "dict" and len(args) == 1 and not kwargs:
+            # dict(<pairs>) / dict(zip(keys, values)): keys of hashable kinds never raise; symbolic keys give an unknown dict
+            pairs = self.concrete_items(st, args[0])
+            if pairs is not None and all(isinstance(p_, VTuple) and len(p_.items) == 2 for p_ in pairs) \
+                    and all(isinstance(p_.items[0], (VStr, VInt, VBool, VTuple, VReal)) or p_.items[0] is NONE for p_ in pairs):
+                d, sym = {}, False
+                for p_ in pairs:
+                    c = self.py_const(p_.items[0])
+                    if type(c).__name__ == "_NCType":
+                        sym = True
+                        break
+                    d[c] = p_.items[1]
+                return [(st, VRef(st.alloc(HeapObj("unk", None) if sym else HeapObj("dict", d), self.refs)))]
         if t.name == "float" and len(args) == 1 and isinstance(args[0], VStr) and args[0].const() is not None:
             # float("<literal>"): exact value of the decimal literal (PY-FLOAT-REAL), ValueError when it is not a number
             from fractions import Fraction
@@ -117,8 +130,76 @@ class C13Executor(SymListMixin, ET.ETreeMixin, Executor):
             return VStr(PYSTR_TD(v.t))
         return super().to_str(st, v, formatted)
 
-    # ---- concrete folding: a method of a *concrete* str with concrete arguments is evaluated by CPython itself
+    # ---- exact %-formatting / str.format for integer and string fields; anything else is an over-approximation
+    def _fmt_field(self, st, v, spec):
+        """text of one field for spec '' | 'd' | '0Nd' | 's' (None = not modelled)"""
+        if isinstance(v, VInt) and spec in ("", "d"):
+            c = v.const()
+            return z3.StringVal(str(c)) if c is not None else z3.If(ops.int_term(v) >= 0, z3.IntToStr(ops.int_term(v)), z3.Concat(z3.StringVal("-"), z3.IntToStr(-ops.int_term(v))))
+        if isinstance(v, VInt) and len(spec) == 3 and spec[0] == "0" and spec[1].isdigit() and spec[2] == "d":
+            return pad(ops.int_term(v), int(spec[1]))
+        if isinstance(v, VStr) and spec in ("", "s"):
+            return v.t
+        return None
+
+    def binop(self, st, op, a, b, node, inplace=False):
+        if op == "Mod" and isinstance(a, VStr) and a.const() is not None:
+            import re as _re
+            vals = list(b.items) if isinstance(b, VTuple) else [b]
+            parts = _re.split(r"(%%|%0?\d*[ds])", a.const())
+            out, k, ok = [], 0, True
+            for p_ in parts:
+                if p_ == "%%":
+                    out.append(z3.StringVal("%"))
+                elif p_.startswith("%") and len(p_) > 1:
+                    t = self._fmt_field(st, vals[k], p_[1:]) if k < len(vals) else None
+                    k += 1
+                    if t is None:
+                        ok = False
+                        break
+                    out.append(t)
+                elif "%" in p_:
+                    ok = False
+                    break
+                elif p_:
+                    out.append(z3.StringVal(p_))
+            if ok and k == len(vals):
+                return [(st, VStr(z3.simplify(z3.Concat(*out)) if len(out) > 1 else (out[0] if out else z3.StringVal(""))))]
+            st.assume(OVER)
+        return super().binop(st, op, a, b, node, inplace)
+
+    EXACT_STR_METHODS = {"startswith", "endswith", "join", "find"}
+
     def str_method(self, st, s_, name, args, kwargs, node):
+        if name == "format" and s_.const() is not None and not kwargs:
+            import string as _string
+            out, auto, ok = [], 0, True
+            try:
+                fields = list(_string.Formatter().parse(s_.const()))
+            except ValueError:
+                fields, ok = [], False
+            for lit, fname, spec, conv in fields:
+                if lit:
+                    out.append(z3.StringVal(lit))
+                if fname is None:
+                    continue
+                if conv or not (fname == "" or fname.isdigit()):
+                    ok = False
+                    break
+                idx = auto if fname == "" else int(fname)
+                auto += 1
+                t = self._fmt_field(st, args[idx], spec or "") if idx < len(args) else None
+                if t is None:
+                    ok = False
+                    break
+                out.append(t)
+            if ok:
+                return [(st, VStr(z3.simplify(z3.Concat(*out)) if len(out) > 1 else (out[0] if out else z3.StringVal(""))))]
+            st.assume(OVER)
+        return self._str_method2(st, s_, name, args, kwargs, node)
+
+    # ---- concrete folding: a method of a *concrete* str with concrete arguments is evaluated by CPython itself
+    def _str_method2(self, st, s_, name, args, kwargs, node):
         c = s_.const()
         if c is not None and not kwargs and name in ("startswith", "endswith", "lower", "upper", "strip", "lstrip", "rstrip", "replace", "find", "split",
                                                        "isdigit", "isalpha", "isspace", "count", "index", "rfind", "partition", "rpartition", "splitlines", "rjust", "ljust", "zfill"):
@@ -133,6 +214,8 @@ class C13Executor(SymListMixin, ET.ETreeMixin, Executor):
                 if isinstance(r, list):
                     return [(st, self.new_list(st, [ops.lift(x) for x in r]))]
                 return [(st, ops.lift(r))]
+        if name not in self.EXACT_STR_METHODS and f"str.{name}" not in self.reg.ext_models:
+            st.assume(OVER)      # the engine answers with an unconstrained value: not a counter-model
         return super().str_method(st, s_, name, args, kwargs, node)
 
     def get_index(self, st, base, idx, node):
@@ -396,7 +479,7 @@ def install_value_models(reg):
         with y = m = d = 0 for a pure time (0 <= serial < 1)."""
         bad = st.fork()
         bad.ghost["xldate_failed"] = True
-        ex.exc_any(bad, f"{ex.loc(node)} xlrd.xldate_as_tuple")
+        ex.exc_model(bad, f"{ex.loc(node)} xlrd.xldate_as_tuple")
         v, mode = args[0], args[1]
         if not isinstance(v, VReal) or not isinstance(mode, VInt):
             return ex.havoc_call(st, "xldate_as_tuple", [], node)
@@ -744,9 +827,7 @@ def _rtf_contracts(reg):
     install_regex_models(reg, ("_RE_PAGE_BREAK", "_RE_TROWD", "_RE_ROW"))
     L = rtf_loops()
     if L is None or not L["built"]:
-        return [FnContract(target=f"{RTF}::_RtfParser._extract_tables", params=[("self", p_unk()), ("text", p_str())],
-                           ensures=[("row-matching-loop-recognised", lambda c: z3.BoolVal(False))], raises=[Raises("Exception", sub=True)],
-                           note="the row-matching loop over the \\trowd positions was not found in the source")]
+        return []      # shape not recognised: model_invariants reports it as `unknown` (the native RTF search decides)
     rxT, rxR = z3.Const("regex!_RE_TROWD", REGEX), z3.Const("regex!_RE_ROW", REGEX)
     TXT = z3.String("text")
     NT, NR = RX_N(rxT, TXT), RX_N(rxR, TXT)
@@ -794,6 +875,8 @@ def _rtf_contracts(reg):
 
 
 def contracts(reg):
+    from contracts.symlist import register_over
+    register_over()
     ET.install(reg)
     out = []
     out += dim_contracts(reg)
@@ -824,16 +907,10 @@ def model_invariants(repo, tier):
     from pyvc.flow import ground_obligation
     from contracts import C13_bounded as Bm
     obls = []
-    m = loader.module(Bm.HTML, repo)
-    src = ast.unparse(m.assigns["_RE_WS"]) if "_RE_WS" in m.assigns else ""
-    obls.append(ground_obligation("C13/html_extractor.py::_RE_WS/module-invariant#whitespace-run-pattern", src in ("re.compile('\\\\s+')",),
-                                  src, Bm.HTML, kind="module-invariant", backend="ground", definite=False))
-    m = loader.module(XLS, repo)
-    want = {"_CELL_EMPTY": "xlrd.XL_CELL_EMPTY", "_CELL_TEXT": "xlrd.XL_CELL_TEXT", "_CELL_NUMBER": "xlrd.XL_CELL_NUMBER", "_CELL_DATE": "xlrd.XL_CELL_DATE",
-            "_CELL_BOOLEAN": "xlrd.XL_CELL_BOOLEAN", "_CELL_ERROR": "xlrd.XL_CELL_ERROR"}
-    got = {k: ast.unparse(m.assigns[k]) if k in m.assigns else None for k in want}
-    obls.append(ground_obligation("C13/xls_extractor.py::_CELL_*/module-invariant#cell-type-constants-are-xlrd's", got == want, str(got), XLS,
-                                  kind="module-invariant", backend="ground"))
+    L = rtf_loops(repo)
+    obls.append(ground_obligation("C13/rtf_extractor.py::_RtfParser._extract_tables/shape#row-matching-loop-recognised", bool(L and L["built"]),
+                                  "loop over the \\trowd match positions appending (start, end, text) rows" if L else "not found: the symbolic row-matching contract is not applied",
+                                  RTF, kind="shape", definite=False))
     return {"obligations": obls}
 
 
@@ -875,43 +952,122 @@ def _flow_site(mod, producer, sink_kw):
         return False, f"{producer}(...) is not bound by a plain assignment (line {call.lineno})", q
     tgt = st0.targets[0]
     if isinstance(tgt, ast.Tuple) and tgt.elts and isinstance(tgt.elts[0], ast.Name):
-        v = tgt.elts[0].id
+        vals = {tgt.elts[0].id}
     elif isinstance(tgt, ast.Name):
-        v = tgt.id
+        vals = {tgt.id}
     else:
         return False, f"unrecognised assignment target at line {st0.lineno}", q
+    # aliases: x = v ; x = v[0] (the producer's result tuple, first component) ; (a, b) = (v[0], v[1])
+    binds = {st0}
+    changed = True
+    while changed:
+        changed = False
+        for n in ast.walk(fnode):
+            if not isinstance(n, ast.Assign) or n in binds or len(n.targets) != 1:
+                continue
+            pairs = []
+            if isinstance(n.targets[0], ast.Name):
+                pairs = [(n.targets[0], n.value)]
+            elif isinstance(n.targets[0], ast.Tuple) and isinstance(n.value, ast.Tuple) and len(n.targets[0].elts) == len(n.value.elts):
+                pairs = [(t, v_) for t, v_ in zip(n.targets[0].elts, n.value.elts) if isinstance(t, ast.Name)]
+            for t, v_ in pairs:
+                src = v_.id if isinstance(v_, ast.Name) else (v_.value.id if isinstance(v_, ast.Subscript) and isinstance(v_.value, ast.Name)
+                                                              and isinstance(v_.slice, ast.Constant) and v_.slice.value == 0 and isinstance(tgt, ast.Name) else None)
+                if src in vals and t.id not in vals:
+                    vals.add(t.id)
+                    binds.add(n)
+                    changed = True
 
-    def guard_ok(test, name):
-        return (isinstance(test, ast.Name) and test.id == name) or \
-               (isinstance(test, ast.Compare) and isinstance(test.left, ast.Name) and test.left.id == name and len(test.ops) == 1
-                and isinstance(test.ops[0], ast.IsNot) and isinstance(test.comparators[0], ast.Constant) and test.comparators[0].value is None)
+    def is_val(e):
+        return isinstance(e, ast.Name) and e.id in vals
 
-    def extra_guards(node, name):
+    def guard_ok(test):
+        """a guard on the value itself: v / v is not None / len(v) > 0 / len(v) != 0 / len(v) >= 1"""
+        if is_val(test):
+            return True
+        if isinstance(test, ast.Compare) and len(test.ops) == 1:
+            l, o, r = test.left, test.ops[0], test.comparators[0]
+            if is_val(l) and isinstance(o, ast.IsNot) and isinstance(r, ast.Constant) and r.value is None:
+                return True
+            if isinstance(l, ast.Call) and getattr(l.func, "id", None) == "len" and len(l.args) == 1 and is_val(l.args[0]) and isinstance(r, ast.Constant):
+                return (isinstance(o, (ast.Gt, ast.NotEq)) and r.value == 0) or (isinstance(o, ast.GtE) and r.value == 1)
+        return False
+
+    def neg_guard_ok(test):
+        """`not v` / `v is None` / len(v) == 0: the branch that is left when the value is empty"""
+        if isinstance(test, ast.UnaryOp) and isinstance(test.op, ast.Not):
+            return guard_ok(test.operand)
+        if isinstance(test, ast.Compare) and len(test.ops) == 1:
+            l, o, r = test.left, test.ops[0], test.comparators[0]
+            if is_val(l) and isinstance(o, ast.Is) and isinstance(r, ast.Constant) and r.value is None:
+                return True
+            if isinstance(l, ast.Call) and getattr(l.func, "id", None) == "len" and len(l.args) == 1 and is_val(l.args[0]) and isinstance(r, ast.Constant):
+                return (isinstance(o, ast.Eq) and r.value == 0) or (isinstance(o, ast.Lt) and r.value == 1)
+        return False
+
+    def extra_guards(node):
         base = {id(a) for a in ancestors(st0)}
         bad = []
         prev = node
         for a in ancestors(node):
             if id(a) in base:
                 break
-            if isinstance(a, ast.If) and not (guard_ok(a.test, name) and prev in a.body):
-                bad.append(a.lineno)
-            elif isinstance(a, (ast.While, ast.For)) or (isinstance(a, ast.Try) and prev not in a.body):
-                bad.append(a.lineno)
+            if isinstance(a, ast.If):
+                in_body = any(prev is x for x in a.body)
+                if not ((in_body and guard_ok(a.test)) or (not in_body and neg_guard_ok(a.test))):
+                    bad.append(f"line {a.lineno}: guarded by `{ast.unparse(a.test)}`")
+            elif isinstance(a, (ast.While, ast.For)) or (isinstance(a, ast.Try) and not any(prev is x for x in a.body)):
+                bad.append(f"line {a.lineno}: inside {type(a).__name__}")
             prev = a
+        # early exits between the producer and the use that depend on something else than the value being empty
+        blk = None
+        for a in [stmt_of(node)] + ancestors(stmt_of(node)):
+            for field in ("body", "orelse", "finalbody"):
+                seq = getattr(a, field, None)
+                if isinstance(seq, list) and any(x is st0 for x in seq):
+                    blk = seq
+            if blk:
+                break
+        if blk:
+            i0 = [i for i, x in enumerate(blk) if x is st0][0]
+            for x in blk[i0 + 1:]:
+                if any(y is stmt_of(node) for y in ast.walk(x)):
+                    break
+                if isinstance(x, ast.If) and any(isinstance(y, (ast.Continue, ast.Return, ast.Break, ast.Raise)) for y in ast.walk(x)) and not neg_guard_ok(x.test):
+                    bad.append(f"line {x.lineno}: early exit under `{ast.unparse(x.test)}`")
         return bad
 
-    def sink_uses(name):
-        return [k for n in ast.walk(fnode) if isinstance(n, ast.Call) for k in n.keywords if k.arg == sink_kw and isinstance(k.value, ast.Name) and k.value.id == name]
+    def sink_uses(names):
+        return [k for n in ast.walk(fnode) if isinstance(n, ast.Call) for k in n.keywords if k.arg == sink_kw and isinstance(k.value, ast.Name) and k.value.id in names]
 
-    def mutated(name, allowed_append):
+    def adds_of(names):
+        """statements that add exactly the value to a list: L.append(v) | L += [v] | L.extend([v]) | L = L + [v] -> [(node, receiver expr)]"""
+        out = []
+        one = lambda e: isinstance(e, ast.List) and len(e.elts) == 1 and isinstance(e.elts[0], ast.Name) and e.elts[0].id in names
+        for n in ast.walk(fnode):
+            if isinstance(n, ast.Call) and isinstance(n.func, ast.Attribute) and len(n.args) == 1 and not n.keywords:
+                if n.func.attr == "append" and isinstance(n.args[0], ast.Name) and n.args[0].id in names:
+                    out.append((n, n.func.value))
+                elif n.func.attr == "extend" and one(n.args[0]):
+                    out.append((n, n.func.value))
+            elif isinstance(n, ast.AugAssign) and isinstance(n.op, ast.Add) and one(n.value):
+                out.append((n, n.target))
+            elif isinstance(n, ast.Assign) and len(n.targets) == 1 and isinstance(n.value, ast.BinOp) and isinstance(n.value.op, ast.Add) and one(n.value.right) \
+                    and ast.unparse(n.value.left) == ast.unparse(n.targets[0]):
+                out.append((n, n.targets[0]))
+        return out
+
+    def mutated(name, allowed):
         probs = []
         for n in ast.walk(fnode):
+            if n is allowed or n in binds:
+                continue
             if isinstance(n, (ast.Assign, ast.AnnAssign, ast.AugAssign)):
                 tg = n.targets if isinstance(n, ast.Assign) else [n.target]
                 for t in tg:
-                    if isinstance(t, ast.Name) and t.id == name and n is not st0:
+                    if isinstance(t, ast.Name) and t.id == name:
                         val = n.value
-                        if not (isinstance(val, ast.List) and not val.elts):
+                        if not (isinstance(n, (ast.Assign, ast.AnnAssign)) and isinstance(val, ast.List) and not val.elts):
                             probs.append(f"line {n.lineno}: {name} re-bound")
                     if isinstance(t, ast.Subscript) and isinstance(t.value, ast.Name) and t.value.id == name:
                         probs.append(f"line {n.lineno}: item of {name} replaced")
@@ -920,31 +1076,31 @@ def _flow_site(mod, producer, sink_kw):
                     if name in {x.id for x in ast.walk(t) if isinstance(x, ast.Name)}:
                         probs.append(f"line {n.lineno}: del on {name}")
             elif isinstance(n, ast.Call) and isinstance(n.func, ast.Attribute) and isinstance(n.func.value, ast.Name) and n.func.value.id == name \
-                    and n.func.attr in ("pop", "remove", "clear", "insert", "sort", "reverse", "extend", "append", "__delitem__") and n is not allowed_append:
+                    and n.func.attr in ("pop", "remove", "clear", "insert", "sort", "reverse", "extend", "append", "__delitem__"):
                 probs.append(f"line {n.lineno}: {name}.{n.func.attr}()")
         return probs
     # direct: sink_kw=v
-    if sink_uses(v):
-        bad = [b for k in sink_uses(v) for b in extra_guards(k.value, v)] + mutated(v, None)
-        return (not bad), ("; ".join(map(str, bad)) or f"{producer} -> {v} -> {sink_kw}="), q
-    # through a list: L.append(v) / obj.<sink_kw>.append(v)
-    apps = [n for n in ast.walk(fnode) if isinstance(n, ast.Call) and isinstance(n.func, ast.Attribute) and n.func.attr == "append" and len(n.args) == 1
-            and isinstance(n.args[0], ast.Name) and n.args[0].id == v]
-    if len(apps) != 1:
-        return False, f"value {v} of {producer} is neither passed as {sink_kw}= nor appended exactly once", q
-    app = apps[0]
-    bad = extra_guards(app, v) + [f"line {n.lineno}: {v} re-bound" for n in ast.walk(fnode) if isinstance(n, ast.Assign) and n is not st0
-                                  and any(isinstance(t, ast.Name) and t.id == v for t in n.targets)]
-    recv = app.func.value
+    if sink_uses(vals):
+        bad = [b for k in sink_uses(vals) for b in extra_guards(k.value)]
+        for v in vals:
+            bad += mutated(v, None)
+        return (not bad), ("; ".join(map(str, bad)) or f"{producer} -> {sorted(vals)} -> {sink_kw}="), q
+    adds = adds_of(vals)
+    if len(adds) != 1:
+        return False, f"value {sorted(vals)} of {producer} is neither passed as {sink_kw}= nor added to a list exactly once", q
+    app, recv = adds[0]
+    bad = extra_guards(app)
+    for v in vals:
+        bad += [p_ for p_ in mutated(v, None)]
     if isinstance(recv, ast.Attribute) and recv.attr == sink_kw:
-        return (not bad), ("; ".join(map(str, bad)) or f"{producer} -> {v} -> .{sink_kw}.append"), q
+        return (not bad), ("; ".join(map(str, bad)) or f"{producer} -> {sorted(vals)} -> .{sink_kw} (added)"), q
     if isinstance(recv, ast.Name):
         L = recv.id
-        if not sink_uses(L):
+        if not sink_uses({L}):
             return False, f"list {L} does not reach {sink_kw}=", q
         bad += mutated(L, app)
-        return (not bad), ("; ".join(map(str, bad)) or f"{producer} -> {v} -> {L}.append -> {sink_kw}="), q
-    return False, "unrecognised receiver of append", q
+        return (not bad), ("; ".join(map(str, bad)) or f"{producer} -> {sorted(vals)} -> {L} (added) -> {sink_kw}="), q
+    return False, "unrecognised receiver of the list addition", q
 
 
 def call_sites(repo, tier):
